@@ -273,12 +273,25 @@ pub fn gen_rich_trace(rng: &mut Rng, n_msgs: usize) -> RichTrace {
                 pending.push(mk(rng, 0x41, n as u8, b"APP1", b"CTX1", p));
             }
             3 => {
-                // non verbose
-                let id: u32 = *rng.pick(&[805312382u32, 805834673, 800000000, 42]);
+                // non verbose: frames of the repository FIBEX files or of the harness' rich FIBEX (ECU EcuR)
+                let rich = rng.chance(1, 2);
+                let (id, n) = if rich {
+                    let (off, bl) = *rng.pick(&crate::c19::RICH_FRAMES);
+                    (900000000 + off, match rng.below(5) { 0 => bl.saturating_sub(1), 1 => bl + 1, _ => bl })
+                } else {
+                    (*rng.pick(&[805312382u32, 805834673, 800000000, 42]), rng.usize_below(24))
+                };
                 let mut p = if be { id.to_be_bytes().to_vec() } else { id.to_le_bytes().to_vec() };
-                let n = rng.usize_below(24);
                 p.extend_from_slice(&rng.bytes(n));
-                pending.push(mk(rng, 0x40, 0, b"APP2", b"CTX2", p));
+                let mut m = mk(rng, 0x40, 0, b"APP2", b"CTX2", p);
+                if rich {
+                    m.storage_ecu = *b"EcuR";
+                    m.std_ecu = m.std_ecu.map(|_| m.storage_ecu);
+                    if rng.chance(1, 2) {
+                        m.ext = None; // the plugin adds the extended header from the FIBEX
+                    }
+                }
+                pending.push(m);
             }
             4 => {
                 let resp = rng.chance(2, 3);
@@ -293,7 +306,9 @@ pub fn gen_rich_trace(rng: &mut Rng, n_msgs: usize) -> RichTrace {
                     ctrl_payload(rng, be, &mut ctrl_lens)
                 };
                 pending_ctrl_lens = Some(ctrl_lens.clone());
-                pending.push(mk(rng, verbose_bit | (3 << 1) | ((if resp { 2 } else { 1 }) << 4), 1, b"DA1\0", b"DC1\0", p));
+                // 1/4 under the CAN plugin's log-info ids (its GET_LOG_INFO branch maps channel names)
+                let (ap, ct): (&[u8; 4], &[u8; 4]) = if rng.chance(1, 4) { (b"CAN\0", b"TC\0\0") } else { (b"DA1\0", b"DC1\0") };
+                pending.push(mk(rng, verbose_bit | (3 << 1) | ((if resp { 2 } else { 1 }) << 4), 1, ap, ct, p));
             }
             5 => {
                 // a small file transfer
@@ -804,6 +819,7 @@ pub fn run_chain(inp: &Input, allow_save: bool) -> ChainResult {
         for cfg in if tiny { vec![ft.clone()] } else { vec![
             ft.clone(),
             json!({"name":"NonVerbose","fibexDir":"/repo/tests/"}),
+            json!({"name":"NonVerbose","fibexDir":crate::c19::RICH_FIBEX_DIR}),
             json!({"name":"SomeIp","fibexDir":"/repo/tests/"}),
             json!({"name":"CAN","fibexDir":"/repo/tests/"}),
             json!({"name":"Muniic","jsonDir":"/repo/tests/muniic"}),
